@@ -21,11 +21,12 @@ def _switch(name):
 
 FIXED_D08B = _switch("fixed_D08b")      # true: the model (and the generator) assume the repair of D08b is in the code
 STATE_NAMES = ["x", "z", "v", "w"]
+DELAY_PARAMS = ["tau", "tau0", "tau00", "d1", "d10"]     # names that differ only by trailing zeros (seed C12-m7: name tags)
 PARAM_NAMES = ["a", "b", "k"]
 INTER_NAMES = ["m", "g"]
 
 # ---------------------------------------------------------------------------------------------- expression trees
-# ["c", "p/q"] | ["v", name] | ["past", statevar, ["par", name] | ["lit", "p/q"]] | ["+", a, b] | ["-", a, b] | ["*", a, b]
+# ["c", "p/q"] | ["v", name] | ["past", statevar, ["par", name] | ["lit", "p/q"] (printed as float) | ["ilit", "n"] (printed as integer)] | ["+", a, b] | ["-", a, b] | ["*", a, b]
 # | ["neg", a] | ["pow", a, k] | ["fn", f, a] | ["fn2", "maxi" | "mini", a, b]
 FN_COQ = dict(absv="FAbs", sigmoid="FSig", exp="FExp", sin="FSin", cos="FCos", tanh="FTanh")
 
@@ -43,7 +44,7 @@ def to_py(e):
     if k == "v":
         return e[1]
     if k == "past":
-        d = e[2][1] if e[2][0] == "par" else flt(e[2][1])
+        d = e[2][1] if e[2][0] == "par" else str(int(Fr(e[2][1]))) if e[2][0] == "ilit" else flt(e[2][1])
         return f"past({e[1]}, {d})"
     if k in "+-*":
         return f"({to_py(e[1])} {k} {to_py(e[2])})"
@@ -78,7 +79,7 @@ def bits(e, env):
     if k == "v":
         return env.get(e[1], (2, 2))
     if k == "past":
-        return (3, 4)
+        return (5, 4)       # |h0 + (t - delay) * h1| <= 2 + 20 (integer-literal delays up to 20)
     if k in "+-":
         a, b = bits(e[1], env), bits(e[2], env)
         return (max(a[0], b[0]) + 1, max(a[1], b[1]))
@@ -241,7 +242,7 @@ def impl(case):
                     nm = nm.strip()
                     nm = nm[len("csr_matrix("):-1] if nm.startswith("csr_matrix(") else nm
                     d = dstr[nm[len("J_hist_"):]].strip()
-                    labels.append("par:" + jnames[local.index(d)] if d in local else "lit:" + str(Fr(float(d))))
+                    labels.append("par:" + jnames[local.index(d)] if d in local else ("lit:" if "." in d else "ilt:") + str(Fr(float(d))))
             res = []
             for pt in case["points"]:
                 y = np.zeros(len(out["smap_run"]))
@@ -440,9 +441,15 @@ def gen_case(rng, allow_viol=False, absv=False, want_delay=None, fns=False, npar
         st = STATE_NAMES[:ns[i]]
         params = [[p, dy(rng, -2, 2, 4, nonzero=True)] for p in (PARAM_NAMES + [f"p{q}" for q in range(9)])[:nparams or rng.randint(1, 3)]]
         tau = None
+        taus = []
         if delays and rng.random() < 0.7:
             # often the same default in every node: the delays are then told apart only by their names / runtime values
             tau = "tau"; params.append(["tau", tau_default if rng.random() < 0.6 else dy(rng, 0, 2, 4, nonzero=True)])
+            taus = ["tau"]
+            if rng.random() < 0.5:      # further delay parameters whose names are zero-suffix variants of each other
+                for nm in rng.sample(DELAY_PARAMS[1:], rng.randint(1, 2)):
+                    params.append([nm, tau_default if rng.random() < 0.4 else dy(rng, 0, 2, 4, nonzero=True)]); taus.append(nm)
+        ilits = rng.choice([["1", "10"], ["2", "20"], ["1", "10", "100"][:2], ["10"]]) if (delays and rng.random() < 0.3) else []
         inc = [e for e in edges if e[2] == i]
         # class of the input variable: clean / delayed (no state dependence) / mixed (sum of both)
         cl = set()
@@ -453,15 +460,17 @@ def gen_case(rng, allow_viol=False, absv=False, want_delay=None, fns=False, npar
                 cl.add("clean")
             else:
                 cl.add(cls_inter[(s, src[1])])
-        atoms = {"clean": [["v", s] for s in st] + [["v", p[0]] for p in params if p[0] != "tau"], "delayed": [], "mixed": []}
-        pars = [["v", p[0]] for p in params if p[0] != "tau"]
+        atoms = {"clean": [["v", s] for s in st] + [["v", p[0]] for p in params if p[0] not in DELAY_PARAMS], "delayed": [], "mixed": []}
+        pars = [["v", p[0]] for p in params if p[0] not in DELAY_PARAMS]
         if inc:
             c_in = "mixed" if ("mixed" in cl or len(cl) > 1) else cl.pop()
             atoms[c_in].append(["v", "s_in"])
 
         def past_atom():
             sv = rng.choice(st[1:] if len(st) > 1 and rng.random() < 0.8 else st)     # prefer a non-first variable
-            d = ["par", "tau"] if (tau and rng.random() < 0.7) else ["lit", dy(rng, 0, 1, 4, nonzero=True)]
+            r_ = rng.random()
+            d = ["par", rng.choice(taus)] if (taus and r_ < 0.6) else ["ilit", rng.choice(ilits)] if (ilits and r_ < 0.85) else \
+                ["lit", rng.choice(["1/2", "1/4", "3/4", "1", "2", "5/4"])]
             return ["past", sv, d]
 
         def factor(pool):
@@ -606,7 +615,7 @@ def gen_point(rng, case):
     params = {}
     for i, nd in enumerate(case["nodes"]):
         for p, _ in nd["params"]:
-            params[f"{nd['name']}/{opn(case, i)}/{p}"] = dy(rng, 0, 2, 4, nonzero=True) if p == "tau" else dy(rng, -2, 2, 4)
+            params[f"{nd['name']}/{opn(case, i)}/{p}"] = dy(rng, 0, 2, 4, nonzero=True) if p in DELAY_PARAMS else dy(rng, -2, 2, 4)
     return dict(t=dy(rng, 0, 4, 4), y={s: dy(rng, -2, 2, 4) for s in sts}, params=params,
                 h0={s: dy(rng, -2, 2, 4) for s in sts}, h1={s: dy(rng, -1, 1, 4) for s in sts})
 
@@ -663,8 +672,9 @@ class Ids:
     def var(self, path):
         return self.ids[path]
 
-    def lit(self, q):
-        q = Fr(q)
+    def lit(self, q, kind="f"):
+        """id of a literal delay; the code tells delays apart by their text: 1 (integer literal) and 1.0 are two delay symbols"""
+        q = (kind, Fr(q))
         if q not in self.lits:
             self.lits[q] = 1000 + len(self.lits)
         return self.lits[q]
@@ -677,7 +687,7 @@ def to_coq(e, pre, ids):
     if k == "v":
         return f"(At (AV {ids.var(pre + e[1])}))"
     if k == "past":
-        d = ids.var(pre + e[2][1]) if e[2][0] == "par" else ids.lit(e[2][1])
+        d = ids.var(pre + e[2][1]) if e[2][0] == "par" else ids.lit(e[2][1], "i" if e[2][0] == "ilit" else "f")
         return f"(At (AP {ids.var(pre + e[1])} {d}))"
     if k in "+-*":
         return f"({ {'+': 'Add', '-': 'Sub', '*': 'Mul'}[k]} {to_coq(e[1], pre, ids)} {to_coq(e[2], pre, ids)})"
@@ -703,7 +713,7 @@ def delay_values(case, pt, ids):
                     if x[2][0] == "par":
                         vals[ids.var(pre + x[2][1])] = Fr(pt["params"][pre + x[2][1]])
                     else:
-                        vals[ids.lit(x[2][1])] = Fr(x[2][1])
+                        vals[ids.lit(x[2][1], "i" if x[2][0] == "ilit" else "f")] = Fr(x[2][1])
     for e in case["edges"]:
         if e[4] is not None:
             vals[ids.lit(e[4])] = Fr(e[4])
@@ -716,7 +726,7 @@ def coq_result(r, ids):
     mat = lambda m: clist([clist([cq(x) for x in row]) for row in m])
     hs = []
     for lab, m in r["hist"]:
-        d = ids.var(lab[4:]) if lab.startswith("par:") else ids.lit(lab[4:])
+        d = ids.var(lab[4:]) if lab.startswith("par:") else ids.lit(lab[4:], "i" if lab.startswith("ilt:") else "f")
         hs.append(f"({d}, {mat(m)})")
     return f"(Ok {mat(r['J0'])} {clist(hs)})"
 
